@@ -257,6 +257,10 @@ impl Runner {
             for h in b["hunks"].as_array().unwrap() {
                 for e in h["es"].as_array().unwrap() {
                     let p: Vec<Vec<u8>> = serde_json::from_value(e["p"].clone()).unwrap_or_default();
+                    // a pattern can match an ancestor that has no entry of its own
+                    for i in 1..p.len() {
+                        s.insert(p[..i].to_vec());
+                    }
                     s.insert(p);
                 }
             }
